@@ -282,6 +282,8 @@ OTHER_VALUE = {"secret": "GEZDGNBVGY3TQOJQ", "issuer": "zz", "algorithm": "SHA25
 def uri_corruptions(has_issuer):
     names = ["secret_missing", "secret_empty", "secret_blank", "secret_blank_plus", "secret_undecodable", "secret_bad_char", "no_query",
              "extra_param:cls", "extra_param:self", "extra_param:label",
+             "extra_param:Secret", "extra_param:SECRET", "extra_param:Digits", "extra_param:PERIOD", "extra_param:Algorithm",
+             "extra_param:Label", "extra_param:Issuer",
              "type_unknown:xotp", "type_unknown:empty", "type_unknown:totp2", "scheme_wrong",
              "label_missing", "label_absent", "label_blank"]
     if has_issuer:
@@ -314,7 +316,9 @@ def corrupt_uri(u, name):
         return join([[k, "+%09" if k == "secret" else v] for k, v in items])
     if name.startswith("extra_param:"):
         # a parameter the format does not define, named like something the loader uses internally
-        return join(items + [[name.split(":")[1], "1"]])
+        pn = name.split(":")[1]
+        # (a differently capitalised twin of a defined parameter carries ANOTHER value: it must not win)
+        return join(items + [[pn, {"secret": "GEZDGNBVGY3TQOJQGEZDGNBV", "digits": "7", "period": "31", "algorithm": "SHA512", "label": "mallory", "issuer": "zz"}.get(pn.lower(), "1")]])
     if name == "secret_undecodable":
         return join([[k, "%21%21%21%21" if k == "secret" else v] for k, v in items])
     if name == "secret_bad_char":
